@@ -257,6 +257,9 @@ def san_env(tier, known_keys, leaks=True):
     e['VERIF_KNOWN'] = ','.join(known_keys)
     e['VERIF_ROOT'] = ROOT
     e['VERIF_REPO'] = REPO
+    sc = os.path.join(BUILD, 'scratch')
+    os.makedirs(sc, exist_ok=True)
+    e['VERIF_SCRATCH'] = sc
     return e
 
 
